@@ -4,3 +4,51 @@
 #![allow(clippy::all, clippy::pedantic)]
 
 // wrappers for the src property group
+
+use std::collections::HashMap;
+use std::net::{IpAddr, SocketAddr};
+use std::sync::{Arc, Mutex, RwLock};
+
+use crate::config::SourceConfig;
+use crate::source::{NtpSource, NtpSourceActionIterator, ProtocolVersion};
+use crate::system::NtpSourceInfo;
+use crate::time_types::{PollInterval, PollIntervalLimits};
+use crate::{ClockId, SourceController};
+
+/// Wrapper around the `pub(crate)` constructor `NtpSource::new` for a plain (non-NTS)
+/// source with an explicit local stratum / local address list.
+pub fn new_plain_source<C: SourceController>(
+    source_addr: SocketAddr,
+    source_config: SourceConfig,
+    protocol_version: ProtocolVersion,
+    controller: C,
+    local_stratum: u8,
+    local_ips: Vec<IpAddr>,
+) -> (NtpSource<C>, NtpSourceActionIterator) {
+    let info = NtpSourceInfo {
+        ip_list: local_ips.into(),
+        server_id: Default::default(),
+        local_stratum,
+    };
+    NtpSource::new(
+        source_addr,
+        source_config,
+        protocol_version,
+        controller,
+        None,
+        ClockId::new(),
+        Arc::new(RwLock::new(info)),
+        Arc::new(Mutex::new(HashMap::new())),
+    )
+}
+
+/// `SourceConfig` from three raw exponents (fields are public; convenience only).
+pub fn source_config(min: u8, initial: u8, max: u8) -> SourceConfig {
+    SourceConfig {
+        poll_interval_limits: PollIntervalLimits {
+            min: PollInterval::from_byte(min),
+            max: PollInterval::from_byte(max),
+        },
+        initial_poll_interval: PollInterval::from_byte(initial),
+    }
+}
